@@ -6,8 +6,8 @@ import pktgen, scen, compare as CMP
 
 class Prop(PropBase):
     pid = 'C14'
-    kernels = ['createTimeUTCWithUs']
-    vo_targets = ['Props/Properties_C14.vo', 'Proofs/Record.vo', 'Proofs/Eq_Time.vo']
+    kernels = ['createTimeUTCWithUs', 'fx_internalProcessPacket']
+    vo_targets = ['Props/Properties_C14.vo', 'Proofs/Record.vo', 'Proofs/Eq_Time.vo', 'Proofs/DispatchCode.vo']
     prop_files = ['Props/Properties_C14.v']
     rule = ('all 17 types, host and LiDAR clock on the recording side, 3 split modes, fixed-offset zones; phase 1: record a session through the packet callback (real driver; decodePacket streams, and loopback UDP with user / tail layers around every datagram) and compare '
             'every record (seq, is_difop, is_frame_begin, time, bytes incl. rewritten header) with the model; phase 2: feed the recorded bytes to a second real driver with '
